@@ -250,6 +250,8 @@ class Explorer:
         m = _re.search(r"\[cause=([\w-]+)\]", str(detail))
         if m:
             match["cause"] = m.group(1)
+            # ... and what the emulator said, so that a known finding stays tied to one refusal and not to every refusal there
+            match["refusal"] = "duplicate-value" if "same value as last_value" in str(detail) else "other"
         self.ctx.violation("%s: %s on %s after %s: %s" % (self.name, kind, label, short_hist(hist), detail),
                            replay, match=match)
 
